@@ -325,6 +325,58 @@ MapCase(c) ==
                  ELSE wl[p].k = "node" /\ wl[p].arity = nodes[p].arity) \o
          (IF c.traverse.err = "" THEN Chk("traverse:rebuilds", c.traverse.tree = Strip(c.a, c.cfg)) ELSE <<>>))
 
+\* ---- C10: transposition ----------------------------------------------------------------------
+TransposeCase(c) ==
+  LET m == NumLeaves(c.so)  n == NumLeaves(c.si)
+      exp == Transpose(c.so, c.si, c.in_leaves)
+      mapchk(r, nm, extra) ==
+        IF m = 0 \/ n = 0 THEN Chk(nm \o ":empty-structure-rejected", r.err = "Value")
+        ELSE Chk(nm \o ":no-error", r.err = "") \o
+             (IF r.err # "" THEN <<>> ELSE
+                Chk(nm \o ":calls", Len(r.calls) = m /\ \A i \in DOMAIN r.calls : r.calls[i].x = Flatten(c.a, c.cfg).leaves[i]) \o
+                (IF extra = "path" THEN Chk(nm \o ":path-argument", \A i \in DOMAIN r.calls : r.calls[i].path = Paths(c.so)[i]) ELSE <<>>) \o
+                (IF extra = "acc" THEN Chk(nm \o ":accessor-argument", \A i \in DOMAIN r.calls : r.calls[i].acc = ExpAccs(c.so)[i]) ELSE <<>>) \o
+                Chk(nm \o ":result", r.v.leaves = TransposeLeaves(Concat([i \in DOMAIN r.calls |-> r.calls[i].outs]), m, n)
+                                      /\ r.v.spec.nodes = Compose(c.si, c.so).spec.nodes))
+  IN (IF IsErr(exp) THEN Chk("error-class", c.fwd.err = exp.err)
+      ELSE Chk("no-error", c.fwd.err = "") \o
+           (IF c.fwd.err # "" THEN <<>> ELSE
+              Chk("value-law", c.fwd.v.leaves = exp.leaves) \o
+              Chk("inner-of-outer", c.fwd.v.spec.nodes = exp.spec.nodes /\ NumLeaves(c.fwd.v.spec) = m * n) \o
+              Chk("involution", c.back.err = "" /\ c.back.v.leaves = c.in_leaves /\ c.back.same_as_input
+                                /\ c.back.v.spec.nodes = Compose(c.so, c.si).spec.nodes)) \o
+           Chk("wrong-leaf-count-rejected", c.errs.too_many \in {"Type", "Value"} /\ c.errs.too_few \in {"Type", "Value"})) \o
+     Chk("none_is_leaf-mismatch-rejected", c.errs.nil_mismatch = "Value") \o
+     mapchk(c.tree_transpose_map, "tree_transpose_map", "") \o
+     mapchk(c.tree_transpose_map_given, "tree_transpose_map(inner given)", "") \o
+     mapchk(c.tree_transpose_map_with_path, "tree_transpose_map_with_path", "path") \o
+     mapchk(c.tree_transpose_map_with_path_given, "tree_transpose_map_with_path(inner given)", "path") \o
+     mapchk(c.tree_transpose_map_with_accessor, "tree_transpose_map_with_accessor", "acc") \o
+     mapchk(c.tree_transpose_map_with_accessor_given, "tree_transpose_map_with_accessor(inner given)", "acc") \o
+     \* (a leaf inner structure matches anything, so there is nothing to reject)
+     Chk("varying-inner-shape-rejected", (NumNodes(c.si) > 1 /\ n > 0) => c.varying \in {"Value", "Type"})
+
+\* ---- C11: pickling ---------------------------------------------------------------------------
+\* same-process and cross-process loads; `world` is the registry of the loading process
+PickleCase(c) ==
+  LET s == c.spec
+      exp == Unpickle(s, c.world)
+      obs(o) == Chk(o.via \o ":exact-state", o.spec = s) \o
+                Chk(o.via \o ":equal-and-hash", o.eq /\ o.hash_eq) \o
+                Chk(o.via \o ":repr", o.repr = ReprSpec(s)) \o
+                Chk(o.via \o ":paths", o.paths = Paths(s)) \o
+                Chk(o.via \o ":accessors", o.accs = ExpAccs(s)) \o
+                Chk(o.via \o ":entries", o.entries = Entries(Root(s))) \o
+                Chk(o.via \o ":children", o.children = Children(s)) \o
+                Chk(o.via \o ":unflatten", o.tree = Unflatten(s, o.leaves, {}).tree)
+  IN Concat([j \in DOMAIN c.loads |->
+        LET o == c.loads[j] IN
+        IF IsErr(exp) THEN Chk(o.via \o ":unknown-type-raises", o.err # "")
+        ELSE Chk(o.via \o ":no-error", o.err = "") \o (IF o.err = "" THEN obs(o) ELSE <<>>)]) \o
+     (IF Has(c, "fresh") /\ ~IsErr(exp)
+      THEN Chk("equals-fresh-flatten", c.fresh.same_class => (c.fresh.spec = s /\ c.fresh.eq /\ c.fresh.hash_eq))
+      ELSE <<>>)
+
 \* the same tree under two option sets
 XOptCase(c) ==
   LET exp == SpecEq(c.sa, c.sb) IN
@@ -393,6 +445,8 @@ Verdict(c) ==
     [] c.op = "pair" -> PairCase(c)
     [] c.op = "xopt" -> XOptCase(c)
     [] c.op = "map" -> MapCase(c)
+    [] c.op = "transpose" -> TransposeCase(c)
+    [] c.op = "pickle" -> PickleCase(c)
     [] c.op = "inspect" -> InspectCase(c)
     [] OTHER -> <<"unknown-op">>
 
